@@ -220,8 +220,29 @@ def admissible_cut_exists_mixed(prots, peps, adj):
 
 
 def gen_pil(rng, big=False):
+    if rng.random() < 0.06:
+        # two families that share no peptide with each other, each a ring of shared-only peptides (inseparable: merged into one group
+        # each); in half of them the names of one family are concatenations of the names of the other ({x, yz, yw} and {xy, z, w})
+        x, y, z, w = rng.sample("ABCDEFGH", 4)
+        fams = [[x, y + z, y + w], [x + y, z, w]] if rng.random() < 0.5 else [["P0", "P1", "P2"], ["P3", "P4", "P5"]]
+        pil = []
+        for fam in fams:
+            for a, b in ((0, 1), (0, 2), (1, 2)):
+                ps = [fam[a], fam[b]]
+                rng.shuffle(ps)
+                pil.append([f"PEP{len(pil)}", gens.norm(rng.choice(["1/100000", "1/1000"])), ps])
+        if rng.random() < 0.5:
+            pil.append([f"PEP{len(pil)}", gens.norm("1/1000"), ["Q1"]])
+        rng.shuffle(pil)
+        return {"pil": pil, "cut": gens.norm(rng.choice(["1/100", "1/1"]))}
     nprot = rng.randint(2, 12 if big else 7)
     prots = [f"P{i}" for i in range(nprot)]
+    if rng.random() < 0.25:
+        # identifiers whose concatenations collide ({A, BC} and {AB, C} both spell ABC), a separator inside a name, case twins:
+        # the node of a shared peptide stands for the SET of its groups
+        pool = ["A", "AB", "BC", "C", "BD", "D", "B", "ABC", "A;B", "a", "Ab", "P1", "P11", "1"]
+        prots = rng.sample(pool, min(nprot, len(pool)))
+        nprot = len(prots)
     pil = []
     style = rng.random()
     npep = rng.randint(1, 14 if big else 9)
